@@ -18,7 +18,29 @@ def colour(rng, kinds=(0, 0, 1, 2, 3)):
         return [1, rng.choice([16, 17, 21, 52, 196, 231, rng.randrange(16, 232)]), 0, 0]
     if k == 2:
         return [2, rng.choice([232, 255, rng.randrange(232, 256)]), 0, 0]
-    return [3, rng.choice([0, 255, rng.randrange(256)]), rng.choice([0, 255, rng.randrange(256)]), rng.randrange(256)]
+    return [3, component(rng), component(rng), component(rng)]
+
+
+def component(rng):
+    """a true-colour component: extremes, the values where the decimal form changes length, anything"""
+    return rng.choice([0, 255, rng.randrange(256), rng.randrange(256), rng.choice([1, 9, 10, 11, 99, 100, 101, 109, 110, 199, 200, 249, 250, 254])])
+
+
+def opposite_attr(rng, a):
+    """an attribute that differs from `a` in EVERY field, with true colours of three-digit components: the longest
+    SGR sequence a single transition can need (bold<->faint goes through normal)"""
+    def other(v, choices):
+        c = [x for x in choices if x != v]
+        return rng.choice(c)
+    big = lambda: rng.choice([100, 101, 128, 199, 200, 254, 255, rng.randrange(100, 256)])
+    fg = [3, big(), big(), big()]
+    bg = [3, big(), big(), big()]
+    while fg == list(a[0:4]):
+        fg[3] = big()
+    while bg == list(a[4:8]):
+        bg[3] = big()
+    inten = {1: 2, 2: 1}.get(a[8], rng.choice([1, 2]))
+    return fg + bg + [inten, other(a[9], UNDERLINING), other(a[10], POLARITY), other(a[11], BLINKING)]
 
 
 def attr(rng, blink=True):
@@ -71,7 +93,11 @@ def any_glyph(rng):
 
 def element(rng, prev=None, blink=True, graphic=True):
     g = graphic_glyph(rng) if graphic else any_glyph(rng)
-    if prev is not None and rng.random() < 0.6:
+    if prev is not None and rng.random() < 0.08:
+        a = opposite_attr(rng, prev[4:])
+        if not blink:
+            a[11] = 25
+    elif prev is not None and rng.random() < 0.6:
         a = mutate_attr(rng, prev[4:], blink) if rng.random() < 0.7 else list(prev[4:])
         if rng.random() < 0.5:
             g = graphic_glyph(rng, prev[0]) if graphic else g
@@ -141,7 +167,7 @@ def history(rng, nops, blink=True, graphic=True, sized=True, ops_weights=None, b
     weights = ops_weights or {"we": 30, "ws": 10, "mv": 20, "sv": 4, "rs": 4, "er": 8, "hc": 3, "sc": 3, "me": 2,
                               "md": 2, "ti": 2, "nb": 1, "ab": 1, "sz": 3, "re": 3, "da": 1, "dup": 6}
     if inputs:
-        weights = dict(weights, **{"in": 12})
+        weights = dict(weights, **{"in": 12, "cl": 2, "rv": 2, "al": 1})
     names = list(weights)
     wts = [weights[n] for n in names]
     last = None
@@ -150,6 +176,10 @@ def history(rng, nops, blink=True, graphic=True, sized=True, ops_weights=None, b
         if o == "dup" and last is not None:
             for _ in range(rng.choice([1, 1, 2, 3])):     # the same operation again - twice or three times now and then
                 parts.append(last)
+            continue
+        if o in ("cl", "rv", "al"):
+            # the channel is closed / re-attached / asked whether it is alive: the library writes regardless
+            parts.append(o)
             continue
         if o == "in":
             data = rng.choice(INPUTS)
@@ -253,3 +283,19 @@ def short_histories_b(maxlen, cfgs):
             out.append(("T %d ; sz 3 2 ; %s" % ((5, 10, 21, 26)[k % 4], " ; ".join(seq)), [cfgs[k % len(cfgs)]]))
             k += 1
     return out
+
+
+def multi_history(rng, nops, ops_weights=None, sized=True):
+    """an `M` script: the operations of one history streamed as THE SAME objects to two or three terminals whose
+    capability flags differ (mouse and window-title flags in particular)"""
+    line = history(rng, nops, sized=sized, ops_weights=ops_weights, inputs=False)
+    head, _, tail = line.partition(" ; ")
+    n = rng.choice([2, 2, 3])
+    caps = [0, 1, 2, 3, 4, 8, 12, 5, 10, 15, 16, 31]
+    bits = []
+    while len(bits) < n:
+        b = rng.choice(caps) if rng.random() < 0.8 else rng.randrange(32)
+        if rng.random() < 0.7 and b in bits:
+            continue                                   # mostly different capabilities
+        bits.append(b)
+    return "M " + " ".join(str(b) for b in bits) + (" ; " + tail if tail else "")
